@@ -220,6 +220,18 @@ class Ctx:
             return False
 
     def build_cli(self):
+        # VERIF_CLI=<path>: judge an already built binary (e.g. one built from a privately patched copy of the
+        # repository, see tools/c11c12_sensitivity.sh) instead of building /repo's tree
+        override = os.environ.get("VERIF_CLI")
+        if override:
+            os.makedirs(os.path.join(CACHE, "bin"), exist_ok=True)
+            d = os.path.join(CACHE, "bin", f"oas3-gen-{self.prop}")
+            shutil.copyfile(override, d + ".tmp")
+            os.chmod(d + ".tmp", 0o755)
+            os.replace(d + ".tmp", d)
+            self.cli = d
+            self.note(f"VERIF_CLI: judging {override}")
+            return d
         with lock("cargo-cli"):
             rc, out, err = sh(["cargo", "build", "--offline", "-p", "oas3-gen", "--bin", "oas3-gen", "--target-dir", CLI_TARGET], cwd=REPO, timeout=3000, env=dict(ENV, CARGO_TARGET_DIR=CLI_TARGET))
             if rc != 0:
@@ -239,12 +251,22 @@ class Ctx:
         os.makedirs(d, exist_ok=True)
         return d
 
-    def run_cli(self, args, cwd=None, timeout=60, env=None):
-        """the REAL binary built from /repo's current tree. Returns (rc, stdout, stderr, timed_out)."""
+    def run_cli(self, args, cwd=None, timeout=60, env=None, stdout_to=None):
+        """the REAL binary built from /repo's current tree. Returns (rc, stdout, stderr, timed_out).
+        env: added to the default environment; a value of None REMOVES the variable.  stdout_to: a file path that
+        receives stdout (the process then writes to a regular file instead of a pipe)."""
         e = dict(ENV, COLUMNS="400", NO_COLOR="1", TERM="dumb")
         if env:
-            e.update(env)
+            for k, v in env.items():
+                if v is None:
+                    e.pop(k, None)
+                else:
+                    e[k] = v
         try:
+            if stdout_to:
+                with open(stdout_to, "w") as fh:
+                    p = subprocess.run([self.cli] + args, cwd=cwd, stdout=fh, stderr=subprocess.PIPE, text=True, timeout=timeout, env=e)
+                return p.returncode, open(stdout_to, encoding="utf-8", errors="replace").read(), p.stderr, False
             p = subprocess.run([self.cli] + args, cwd=cwd, capture_output=True, text=True, timeout=timeout, env=e)
             return p.returncode, p.stdout, p.stderr, False
         except subprocess.TimeoutExpired as ex:
